@@ -10,13 +10,9 @@ NOTE = ("Trusted: Lean 4.33 kernel; axioms propext, Classical.choice, Quot.sound
 
 CHECKS = {
     "C02": dict(
-        text="For every registered non-container element the Python body of _impedance and the sympified equation string are re-translated from /repo on every run into terms of one expression language, and `evalC impl = evalC eqn` is proved for ALL complex parameter values and frequencies (22 theorems <Sym>_impl_eq_eqn; all_elements_covered fails when an element has no theorem). The translator is cross-checked on every run (generated terms evaluated by the Lean driver at complex floats vs the Python kernels and sympy). PARTIAL: whole circuits, the 3^5 sub-circuit configurations of the general transmission line and the 0 Hz / infinite-frequency limits are decided by the direct oracle on the implementation only in this revision.",
+        text="For every registered non-container element the Python body of _impedance and the sympified equation string are re-translated from /repo on every run into terms of one expression language, and `evalC impl = evalC eqn` is proved for ALL complex parameter values and frequencies (22 theorems <Sym>_impl_eq_eqn; all_elements_covered fails when an element has no theorem). General transmission line: the seven branch formulas (_eqNN vs the return expressions of _sympy) and the auxiliaries lm/cs/ct/s are re-translated and proved equal, the two if/elif decision trees are modelled and proved to select the same formula with the same roles, hence numeric = symbolic for ALL 3^5 configurations and all values (tlm_numeric_eq_symbolic). Ties: translator cross-check on every run (generated terms evaluated by the Lean driver at complex floats vs the Python kernels and sympy); the Tlm model is run against the real _impedance and to_sympy on all 243 configurations. PARTIAL: whole-circuit symbolic composition and the 0 Hz / infinite-frequency limits are decided by the direct oracle on the implementation only.",
         ref="§4 C02", tech=TECH_T,
-        note=NOTE + "numpy real powers/sqrt of non-negative reals are read as principal complex powers; IEEE rounding/overflow and sympy's evaluation and limit engines are runtime."),
-    "C01": dict(
-        text="Proved for ALL circuits (any nesting depth/width, any number of frequencies, any field of values): Parallel._impedance as transcribed refines the pointwise law (0 if a branch is shorted, reciprocal sum over non-open branches, InfiniteImpedance iff all open: parallel_refines), Series._impedance sums (series_refines), the recursion through _impedance refines the law on every tree (circuit_refines), also exactly as the code executes it with lazily evaluated children (circuit_refines_as_executed), array evaluation equals one-frequency-at-a-time evaluation (array_eq_pointwise), children order is irrelevant (series_perm, parallel_perm). Hypotheses forced by the code and stated: each element is open at all supplied frequencies or at none; no nested parallel connection is entirely open (known finding F28). Tie: the driver runs these same definitions at exact complex rationals on the leaf vectors of the real elements for exhaustive small topologies and random large ones and compares with Circuit.get_impedances; circuits are also built four ways and compared. PARTIAL: leaf impedances themselves are C02's business; floating rounding is runtime.",
-        ref="§4 C01", tech=TECH_H,
-        note=NOTE + "numpy evaluation order and rounding are not modelled (results compared to 1e-7 relative against exact rational evaluation); 1/0 of an exactly cancelling admittance sum is inf in numpy and 0 in a field."),
+        note=NOTE + "numpy real powers/sqrt of non-negative reals are read as principal complex powers; IEEE rounding/overflow and sympy's evaluation and limit engines are runtime (sympy calls are time-limited; time-outs are skipped and counted)."),
     "C14": dict(
         text="Proved on the model of the setters/reset/copy: after ANY call history (valid/invalid arguments, keyword/positional forms, refused or half-refused calls) every parameter has lower < upper (step_inv, history_inv); accepted limits clamp the value exactly as stated (lower_clamps, upper_clamps); NaN limits are refused; a refused single update leaves the element unchanged; ANY valid pair of limits can be applied to ANY valid state (setBoth_succeeds), hence reset restores the class defaults from every valid state (reset_restores_defaults) and copies equal the original (copy_equals_original, container_copy_equals_original under the property's in-limits proviso); the defaults of the CURRENT registry are valid (decide over the generated table). Tie: random call histories on every registered class compared call by call with the real objects. PARTIAL: reset/copy exactness is proved per parameter; the list-level glue (dict iteration, key lookup) is covered by the correspondence and by the invariant theorems only; aliasing/independence is checked on the implementation only.",
         ref="§4 C14", tech=TECH_H,
